@@ -73,12 +73,15 @@ def gen_case(rng: random.Random, tier: str) -> dict:
         rsel = rng.choice(outs)
     else:
         rsel = rng.sample(outs, rng.randint(1, min(3, len(outs))))
+    if isinstance(rsel, list) and rng.random() < 0.2 and g["ext"]:
+        rsel = rsel + [rng.choice(g["ext"])]  # a plain INPUT name in the selection: rejected, or at least never returned
+    rsel_tuple = isinstance(rsel, list) and rng.random() < 0.3  # the selection is given as a tuple instead of a list
     fns = gen.fn_nodes(g)
     fault = None
     if fns and rng.random() < 0.3:
         nd, _d = rng.choice(fns)
         fault = {"kind": "raise", "node": nd["name"], "inv": 0, "fid": 0, "when": "before"}
-    return {"graph": g, "inputs": inp, "entry": entry, "gsel": gsel, "rsel": rsel, "on_missing": rng.choice(["ignore", "warn", "error"]), "fault": fault, "interrupt": interrupt, "cfg": gen.gen_async_cfg(rng, allow_hold=False), "error_handling": "continue", "reuse": rng.random() < 0.35}
+    return {"graph": g, "inputs": inp, "entry": entry, "gsel": gsel, "rsel": rsel, "on_missing": rng.choice(["ignore", "warn", "error"]), "fault": fault, "interrupt": interrupt, "rsel_tuple": rsel_tuple, "cfg": gen.gen_async_cfg(rng, allow_hold=False), "error_handling": "continue", "reuse": rng.random() < 0.35}
 
 
 def _declared_outputs(g: dict) -> list[str]:
@@ -244,7 +247,7 @@ def run_case(doc: dict) -> dict:
         eff = _effective(doc, outs)
         kw = {"on_missing": doc["on_missing"], "error_handling": doc["error_handling"]}
         if doc.get("rsel") is not None:
-            kw["select"] = doc["rsel"]
+            kw["select"] = tuple(doc["rsel"]) if (doc.get("rsel_tuple") and isinstance(doc["rsel"], list)) else doc["rsel"]
         faults = [doc["fault"]] if doc.get("fault") else []
         modes = (["async"] if doc.get("interrupt") else ["sync", "async"])
         for mode in modes:
@@ -268,6 +271,9 @@ def run_case(doc: dict) -> dict:
                 sigs.append(completion_sig(w["rt"]))
                 if oall["status"] == "raised" and oall["error"] and oall["error"][0] in ("MissingInputError", "ValueError", "GraphConfigError"):
                     res["discard"] = "scoped_call_rejected_by_validation"
+                    return res
+                if out["status"] == "raised" and out["error"] and out["error"][0] == "GraphConfigError" and "Invalid select" in str(out["error"][1]):
+                    res["discard"] = "selection_rejected_by_validation"  # e.g. a plain input name in the selection (list spelling)
                     return res
                 # ---- scope monitor
                 if act is not None:
